@@ -452,6 +452,30 @@ def _run_check(pid, tier, seed, replay=None):
     obligations = count_obligations(closure)
     discharged = obligations if not proof_problems else 0
 
+    # thorough tier: independent re-check of the compiled theorems (and everything they depend on) by coqchk
+    coqchk_report = None
+    if tier == 'thorough' and ok_build and not replay and not os.environ.get('VERIF_NO_COQCHK'):
+        try:
+            with Lock('coq'):
+                pc = subprocess.run(['coqchk', '-silent', '-o', '-Q', 'theories', 'C33', 'C33.%s.Properties' % coq_dir], cwd=COQ,
+                                    stdout=subprocess.PIPE, stderr=subprocess.STDOUT, text=True, timeout=5400)
+            out = pc.stdout
+            ax = []
+            if '* Axioms:' in out:
+                seg = out[out.index('* Axioms:'):]
+                for line in seg.split('\n')[1:]:
+                    if line.startswith('*') or not line.strip():
+                        break
+                    ax.append(line.strip())
+            ours = [a for a in ax if a.startswith('C33.')]
+            coqchk_report = {'exit': pc.returncode, 'axioms_of_loaded_libraries': ax, 'axioms_in_C33': ours}
+            if pc.returncode != 0 or ours:
+                proof_problems.append('coqchk failed or found axioms in the development: exit %d %s %s' % (pc.returncode, ours, out[-300:].replace('\n', ' | ')))
+                discharged = 0
+        except subprocess.TimeoutExpired:
+            coqchk_report = {'exit': 'timeout'}
+            notes.append('coqchk timed out (90 min); not counted as a failure')
+
     # if only the proofs are broken, the model may still compile: try to build Check.vo alone
     check_ok = ok_build
     if not ok_build and has_check:
@@ -634,6 +658,7 @@ def _run_check(pid, tier, seed, replay=None):
         'known_finding_cases': {str(k): len(v) for k, v in kf_hits.items()},
         'seeds_used': seeds_used, 'notes': notes, 'proof_problems': proof_problems,
         'dep_closure': closure,
+        'coqchk': coqchk_report,
     }
     cov.update(extra_cov)
     ev = {'property_id': pid, 'tier': tier, 'seed': seed, 'level': 'proof', 'coverage': cov,
